@@ -180,7 +180,7 @@ def run(ctx):
     ]
     ctx.assumptions = ["every property theorem: Closed under the global context"]
     cases = [gen_history(rnd, 30 if thorough else 14) for _ in range(4000 if thorough else 400)]
-    impl = ctx.run_impl("impl_values.py", {"cases": cases}, timeout=3000)
+    impl = ctx.run_impl_cases("impl_values.py", cases, jobs=8, timeout=3000)
     terms = []
     failures = []
     known_empty = []
